@@ -543,8 +543,10 @@ class simplify_chained_calls(FuncADLNodeTransformer):
                     self._arg_stack.define_name(a_name.arg, arg)
                 for k_name, arg in keyword_asts.items():
                     self._arg_stack.define_name(k_name, arg)
-                # Now, evaluate the expression, and then lift it.
-                return self.visit(call_node.func.body)
+                # Now, evaluate the expression, and then lift it. Visiting rewrites nodes in
+                # place and the lambda may be used again (it can be an argument that was
+                # substituted in several places) - so work on a copy of its body.
+                return self.visit(copy.deepcopy(call_node.func.body))
         elif _is_method_call_on_first(call_node):
             return self.select_method_call_on_first(call_node)
         else:
